@@ -44,9 +44,9 @@ func exploredConfigs(tier string) []itCfg {
 func enumConfigs() []itCfg { return configs("thorough") }
 
 func scenarios(tier string) []*vx.Scenario {
-	bound := 1
+	bound := 2
 	if tier == "thorough" {
-		bound = 2
+		bound = 3
 	}
 	var s []*vx.Scenario
 	for _, c := range configs(tier) {
@@ -302,7 +302,7 @@ func main() {
 		Rule: "real eio client <-> real eio server over the in-process polling link, virtual time (exact latencies, early-timer deviations off). " +
 			"Dead peer: for every (pingInterval, pingTimeout) the link is black-holed before every request index of a 3-heartbeat run (both directions / responses only / after the request was served) and at every quarter-interval instant (both / responses only; also with an application sender on either side whose requests are in flight at the instant), one execution each at the default schedule, all nine configurations in both tiers, " +
 			"plus a subset (first pong POST, the poll after it, the tie t=I, a parked long poll) explored with thread-choice deviations from the fault on. " +
-			"Live peer: idle for 5*(I+T), a sender on either side at phase 0, I/4, I/2, 3I/4 of the ping schedule, and the same with a latency of T/8 per leg, explored with thread-choice deviations over the whole run (quick: bound 1; thorough: bound 2, except that a sender firing at the very instant of every ping gets bound 1 over the whole run plus bound 2 inside a window of three heartbeat periods; the dead-peer subset is explored to bound 2 / 3). " +
+			"Live peer: idle for 5*(I+T), a sender on either side at phase 0, I/4, I/2, 3I/4 of the ping schedule, and the same with a latency of T/8 per leg, explored with thread-choice deviations over the whole run (quick: bound 1; thorough: bound 2, except that a sender firing at the very instant of every ping gets bound 1 over the whole run plus bound 2 inside a window of three heartbeat periods; the dead-peer subset is explored to bound 3 / 4, the heartbeat-inside-an-upgrade alignments to bound 2 / 3). " +
 			"Upgrade: the live pair upgrades to a duplex pipe (rig R4, the real upgrade state machines) with latency L=T/10 per leg on the pipe and 0 or L on the polling link, started so that ping 1 (and 2) comes due k*L/2 after the start of the upgrade for k=-2..9 (before, inside every phase of, on every boundary of and after the upgrade), one execution each for all nine configurations plus thread-choice deviations from the start of the upgrade on for the explored configurations. " +
 			"Narrow: the server socket against a hand-played polling client that withholds pong k=1..3 after answering the earlier ones with delay 0, T/2, T-1ms. " +
 			"distinct_nontrivial = deviating schedules + enumerated fault positions in which the fault was injected + narrow cases",
